@@ -216,3 +216,91 @@ Definition join_p (p1 p2 : list key) : list key := dedupe_p (p1 ++ p2).
 Definition join_t (p1 p2 : list key) (t1 t2 : mat nat) : mat nat :=
   dedupe_t (p1 ++ p2) (hstack2 t1 (map (map (fun v => v + length p1)) t2)).
 
+
+(* ================= remove_duplicate_nodes: remapping of the named boundaries (mesh.py, after the vertex merge) *)
+Section RemapDefs.
+  (* canonical form of a facet tuple (Mesh._sort_entities); everything below works for ANY canonicaliser *)
+  Variable canon : list nat -> list nat.
+  Variables (nslots : nat) (newp : list nat) (F F' : mat nat) (t2f' : mat nat) (f2t0 : list nat).
+  (* candidates = m.t2f[:, self.f2t[0]] : the facets of the owner cell in the NEW numbering *)
+  Definition cand (s f : nat) : nat := nth (nth f f2t0 0) (nth s t2f' []) 0.
+  (* match[s][f] = (sort(m.facets)[:, candidates[s][f]] == sort(newp[self.facets])[:, f]).all() *)
+  Definition matches (s f : nat) : bool :=
+    nats_same (canon (nth (cand s f) F' [])) (canon (map (fun v => nth v newp 0) (nth f F []))).
+  (* match.argmax(axis=0) : first slot that matches, 0 if none does *)
+  Fixpoint first_true (g : nat -> bool) (n k : nat) : nat :=
+    match n with
+    | 0 => 0
+    | S n' => if g k then k else first_true g n' (S k)
+    end.
+  Definition argmax_slot (f : nat) : nat :=
+    let s := first_true (fun s => matches s f) nslots 0 in if s <? nslots then s else 0.
+  (* newf = candidates[match.argmax(axis=0), arange(nfacets)] *)
+  Definition newf (f : nat) : nat := cand (argmax_slot f) f.
+End RemapDefs.
+(* newp = zeros(np); newp[self.t] = t' *)
+Definition remap_newp (npts : nat) (t t' : mat nat) : list nat := scatter (concat t) (concat t') (repeat 0 npts).
+(* ori = m.f2t[1, newf[ixs]] == self.f2t[ixs.ori, ixs] *)
+Definition remap_flag (f2t1' : list Z) (g : nat) (c : Z) : bool := Z.eqb (nth g f2t1' (- 1)%Z) c.
+(* one named boundary: (facets, optional flags) -> np.unique(newf[ixs]) resp. OrientedBoundary(newf[ixs], ori) *)
+Definition remap_tag (nf : nat -> nat) (f2t : mat Z) (f2t1' : list Z) (ixs : list nat) (ori : option (list bool))
+  : list nat * option (list bool) :=
+  match ori with
+  | None => (unique_nat (map nf ixs), None)
+  | Some o => (map nf ixs,
+               Some (map (fun fo : nat * bool => remap_flag f2t1' (nf (fst fo))
+                                  (nth (fst fo) (nth (if snd fo then 1 else 0) f2t []) (- 1)%Z)) (combine ixs o)))
+  end.
+
+(* ================= morphed: p = self.p.copy(); for i, arg in enumerate(args): p[i] = arg(<source>) *)
+Definition morph_step {R} (orig : list R) (st : list R * nat) (arg : option (list R -> R)) : list R * nat :=
+  (match arg with Some f => set_nth (snd st) (f orig) (fst st) | None => fst st end, S (snd st)).
+Definition morphed_rows {R} (p : list R) (args : list (option (list R -> R))) : list R :=
+  fst (fold_left (morph_step p) args (p, 0)).
+(* the variant in which every function sees the rows already replaced (NOT what the property asks for) *)
+Definition morph_step_seen {R} (st : list R * nat) (arg : option (list R -> R)) : list R * nat :=
+  (match arg with Some f => set_nth (snd st) (f (fst st)) (fst st) | None => fst st end, S (snd st)).
+
+(* ================= oriented: t[0, flip], t[1, flip] = t[1, flip], t[0, flip] *)
+Definition swap_rows01 (flip : list bool) (t : mat nat) : mat nat :=
+  match t with
+  | r0 :: r1 :: rest =>
+      map (fun fc : bool * (nat * nat) => if fst fc then snd (snd fc) else fst (snd fc)) (combine flip (combine r0 r1)) ::
+      map (fun fc : bool * (nat * nat) => if fst fc then fst (snd fc) else snd (snd fc)) (combine flip (combine r0 r1)) :: rest
+  | _ => t
+  end.
+
+
+(* Mesh.__matmul__ with a list of meshes: p = hstack(all p); one np.unique; mesh j uses ixb[t_j + offset_j] *)
+Definition matmul_offset (lens : list nat) (j : nat) : nat := list_sum (firstn j lens).
+Definition matmul_p (ps : list (list key)) : list key := dedupe_p (concat ps).
+Definition matmul_t (ps : list (list key)) (j : nat) (t : mat nat) : mat nat :=
+  dedupe_t (concat ps) (map (map (fun v => v + matmul_offset (map (@length key) ps) j)) t).
+
+
+(* to_meshtri(style='x'): p = hstack((doflocs, centres)); the centre of cell k gets number base + k *)
+Definition quad_x_points {P} (p centres : list P) : list P := p ++ centres.
+
+(* ---- MeshQuad1.to_meshtri, boundaries (independent lookup): keys = facets[0] * nv + facets[1];
+        newf = np.searchsorted(keys, key of each tagged facet taken in (stable) increasing order of its number) *)
+Definition facet_key (nv : nat) (f : list nat) : nat := nth 0 f 0 * nv + nth 1 f 0.
+(* np.searchsorted(keys, x) on increasing keys: the number of keys below x *)
+Definition searchsorted (keys : list nat) (x : nat) : nat := length (filter (fun k => k <? x) keys).
+Definition lookup_boundary (nv : nat) (OF NF : mat nat) (ixs : list nat) : list nat :=
+  map (fun i => searchsorted (map (facet_key nv) NF) (facet_key nv (nth i OF []))) (sort_nat ixs).
+(* ori = mesh.f2t[0, newf] % nt != self.f2t[ixs.ori, ixs] *)
+Definition lookup_flag (nt : nat) (f2t0' : list nat) (g : nat) (c : Z) : bool := negb (Z.eqb (Z.of_nat (nth g f2t0' 0 mod nt)) c).
+
+(* stable sort of (facet, flag) pairs by facet: ixs[order], ixs.ori[order] with order = argsort(ixs, kind='stable') *)
+Fixpoint insert_fo (x : nat * bool) (l : list (nat * bool)) : list (nat * bool) :=
+  match l with
+  | [] => [x]
+  | y :: l' => if fst x <=? fst y then x :: l else y :: insert_fo x l'
+  end.
+Definition sort_fo (l : list (nat * bool)) : list (nat * bool) := fold_right insert_fo [] l.
+Definition lookup_oriented (nv nt : nat) (OF NF : mat nat) (f2t : mat Z) (f2t0' : list nat) (ixs : list nat) (ori : list bool)
+  : list nat * list bool :=
+  let ps := sort_fo (combine ixs ori) in
+  let nf (i : nat) := searchsorted (map (facet_key nv) NF) (facet_key nv (nth i OF [])) in
+  (map (fun io => nf (fst io)) ps,
+   map (fun io : nat * bool => lookup_flag nt f2t0' (nf (fst io)) (nth (fst io) (nth (if snd io then 1 else 0) f2t []) (- 1)%Z)) ps).
